@@ -133,7 +133,10 @@ def check_c04(case, r):
         for gid, g in tr["gcs"].items():
             load = r["totalLoad"][gid][t]
             lim = lims[gid][t]
-            if g["cur_max_power"] != lim and not r["trace"][t].get("event_error"):
+            # (the failing step of an aborted run is reported from partial state - distributed raises the limit for a
+            # battery and an exception in the sub-strategy leaves it raised; the run is flagged at that step - I.7)
+            if g["cur_max_power"] != lim and not r["trace"][t].get("event_error") \
+                    and not (r["trace"][t].get("strat_error") and t == r["step_i"] - 1 and r["aborted"]):
                 v.append(("current_limit", "C04:current_limit_not_min_rating_latest_signal",
                           "step %d %s: cur_max_power=%r expected %r" % (t, gid, g["cur_max_power"], lim)))
             if abs(load) > lim + EPS:
